@@ -70,6 +70,17 @@
 //!   behind must not spoil a later finished step;
 //! * `rtr.abandoned_step` — the step future dropped while Pending at every
 //!   await point (narrow pipes: inside PDUs), then stepped again.
+//!
+//! And the CONSTRUCTION-ROUTE space `rtr.construction_routes` (witness
+//! `routes route=.. v=.. client=.. link=.. rev=.. [step=..]`): the source's
+//! values made by every public route (constructors, relaxed / saturating
+//! constructors, `From` impls, `FromStr`, serde, struct literals, a SLURM
+//! file, a PDU turned back into a payload, the `Arbitrary` impls) over a
+//! universe with every prefix length of both families and boundary values of
+//! every component; what the client hands to its target is compared with
+//! what the source reported by the crate's own `==`, `Hash`, `Ord` and
+//! membership in `HashSet` / `BTreeSet` (same oracle
+//! `C06.data.equals_source`), besides the model comparison.
 
 use std::cell::RefCell;
 use std::collections::{BTreeMap, BTreeSet, HashSet};
@@ -2901,6 +2912,748 @@ fn cancel_space(ctx: &Ctx, thorough: bool) {
 }
 
 // ======================================================================
+// The construction-route space
+// ======================================================================
+//
+// Everywhere else the source's items are built by the ordinary constructors
+// (`entry_payload`) and the client's data is compared in MODEL terms
+// (`Entry`: what the accessors read). Two things stay invisible that way:
+// a value that came into being by ANOTHER public route (the crate's
+// `Arbitrary` impls, serde, `FromStr`, `From` impls, relaxed / saturating
+// constructors, struct literals from public fields, a SLURM file, a PDU
+// turned back into a payload) may be represented differently inside, and
+// "the client holds exactly the source's data" is, for every user of the
+// crate, a statement about the crate's own `==`, `Hash` and `Ord` (the
+// payload types exist "to use them as keys in collections to be able to
+// perform difference processing"). Here both are dimensions: every item of
+// a boundary-dense universe is made by every route, served by the real
+// server, and what the real client hands to its target — kept in a `Vec`
+// under `==`, a `HashSet` and a `BTreeSet` of the crate's `Payload` — must be
+// the source's items by `==` (both ways), `Hash`, `Ord` and membership in
+// each of the three, besides the model comparison of the other spaces.
+
+/// The route by which the source's values were made.
+#[derive(Clone, Copy, Debug, PartialEq, Eq, PartialOrd, Ord, Hash)]
+enum Made {
+    /// `Prefix::new`, `MaxLenPrefix::new(.., Some(max))`, `Asn::from_u32`, `Payload::origin` / `router_key` / `aspa`
+    /// (the route of all other spaces; the control)
+    Ctor,
+    /// `Prefix::new_v4` / `new_v6`, `MaxLenPrefix::from(prefix)` (no max-len) where max-len = prefix length, `Asn::from(u32)`,
+    /// `KeyIdentifier::try_from(&[u8])`, `RouterKeyInfo::try_from(Vec<u8>)`, `RouteOrigin::new` ... `Payload::from(..)`
+    Family,
+    /// `Prefix::new_relaxed` / `new_v4_relaxed` / `new_v6_relaxed` given an address with all host bits set,
+    /// `MaxLenPrefix::saturating_new` given 255 / 0 where the family maximum / the prefix length is meant; `Aspa::withdraw()` for an empty provider set
+    Relaxed,
+    /// `MaxLenPrefix::from_str` ("a/l-m", "a/l"), `Prefix::from_str_relaxed`, `Asn::from_str` ("AS1", "as1", "1"), `KeyIdentifier::from_str` (upper / lower case hex)
+    Text,
+    /// `Deserialize` from JSON text: `Prefix`, `Asn`, `KeyIdentifier`
+    Serde,
+    /// `Deserialize` from a `serde_json::Value`: `Prefix`, `KeyIdentifier`, `Asn::deserialize_from_any` / `deserialize_from_str` / the derived impl
+    SerdeValue,
+    /// struct literals from the public fields (`RouteOrigin { .. }`, `RouterKey { .. }`, `Aspa { .. }`, `Payload::Origin(..)`), key info a view
+    /// into a larger `Bytes` or a static one, `ProviderAsns::empty()`
+    Literal,
+    /// a SLURM file (JSON text) through `SlurmFile::from_str` and `assertions.iter_payload()`
+    Slurm,
+    /// what a cache that is itself an RTR client would serve: `pdu::Payload::new(..).to_payload()`
+    Relay,
+    /// the components through their `Arbitrary` impls (`Prefix`, `MaxLenPrefix`, `Asn`, `KeyIdentifier`, `RouterKeyInfo`, `ProviderAsns`), assembled by the constructors
+    ArbParts,
+    /// `RouteOrigin::arbitrary`, `RouterKey::arbitrary`, `Aspa::arbitrary`
+    ArbItem,
+    /// `Payload::arbitrary`
+    ArbPayload,
+}
+
+const MADE: [Made; 12] = [Made::Ctor, Made::Family, Made::Relaxed, Made::Text, Made::Serde, Made::SerdeValue, Made::Literal, Made::Slurm,
+    Made::Relay, Made::ArbParts, Made::ArbItem, Made::ArbPayload];
+
+impl Made {
+    fn name(self) -> &'static str {
+        match self { Made::Ctor => "ctor", Made::Family => "family", Made::Relaxed => "relaxed", Made::Text => "text", Made::Serde => "serde",
+            Made::SerdeValue => "serde-value", Made::Literal => "literal", Made::Slurm => "slurm", Made::Relay => "relay",
+            Made::ArbParts => "arbitrary-parts", Made::ArbItem => "arbitrary-item", Made::ArbPayload => "arbitrary-payload" }
+    }
+    /// `Arbitrary` promises no mapping from octets to values: what comes out
+    /// is the source's item whatever it is.
+    fn is_arbitrary(self) -> bool { matches!(self, Made::ArbParts | Made::ArbItem | Made::ArbPayload) }
+}
+
+/// Key info is always a prefix of this pattern (no two neighbouring octets
+/// equal, none zero), so that a static buffer can stand behind it.
+const fn info_pattern() -> [u8; 300] {
+    let mut a = [0u8; 300];
+    let mut i = 0;
+    while i < 300 { a[i] = (i * 7 % 251 + 1) as u8; i += 1; }
+    a
+}
+static INFO_PATTERN: [u8; 300] = info_pattern();
+
+/// The universe of the space, in model terms, grouped by type:
+/// * origins: EVERY prefix length of both families (0..=32, 0..=128), the
+///   address all ones down to the prefix length (at lengths 0, 1, maximum-1,
+///   maximum also 5A5A..5B: top bit clear, lowest bit set), max-len = prefix
+///   length, the family maximum and half-way; AS 0, 2^32-1 and an ordinary
+///   one rotating over them;
+/// * router keys: SKI all zero / all ones / mixed, AS 0 / 2^32-1 / ordinary,
+///   key info of 0, 1, 91 and 300 octets;
+/// * ASPA: customers 0, 1, 2^32-2, 2^32-1 and two ordinary ones with no, one
+///   (AS 0; AS 2^32-1), three, five and seventeen providers.
+fn route_universe() -> Vec<Entry> {
+    let mut v: Vec<Entry> = Vec::new();
+    let asn_of = |len: u8, k: usize| [0u32, u32::MAX, 64496 + len as u32][(len as usize + k) % 3];
+    let maxes = |len: u8, fmax: u8| { let mut m = vec![len, len + (fmax - len) / 2, fmax]; m.dedup(); m };
+    for len in 0..=32u8 {
+        let pats: &[u32] = if matches!(len, 0 | 1 | 31 | 32) { &[u32::MAX, 0x5A5A_5A5B] } else { &[u32::MAX] };
+        for (pi, pat) in pats.iter().enumerate() {
+            let mask = if len == 0 { 0 } else { u32::MAX << (32 - len as u32) };
+            for (k, max) in maxes(len, 32).into_iter().enumerate() {
+                v.push(Entry::Origin { addr: IpAddr::V4(Ipv4Addr::from(pat & mask)), len, max, asn: asn_of(len, k + pi) });
+            }
+        }
+    }
+    for len in 0..=128u8 {
+        let pats: &[u128] = if matches!(len, 0 | 1 | 127 | 128) { &[u128::MAX, 0x5A5A_5A5A_5A5A_5A5A_5A5A_5A5A_5A5A_5A5B] } else { &[u128::MAX] };
+        for (pi, pat) in pats.iter().enumerate() {
+            let mask = if len == 0 { 0 } else { u128::MAX << (128 - len as u32) };
+            for (k, max) in maxes(len, 128).into_iter().enumerate() {
+                v.push(Entry::Origin { addr: IpAddr::V6(Ipv6Addr::from(pat & mask)), len, max, asn: asn_of(len, k + pi) });
+            }
+        }
+    }
+    let mut asc = [0u8; 20];
+    for (i, b) in asc.iter_mut().enumerate() { *b = (i as u8) * 13 + 1 }
+    let skis = [[0u8; 20], [0xFF; 20], KEY_SKI, asc];
+    for i in 0..8usize {
+        v.push(Entry::Key { ski: skis[i % 4], asn: [0, u32::MAX, 64498][i % 3], info: INFO_PATTERN[..[0usize, 300, 91, 1][i % 4]].to_vec() });
+    }
+    let provider_lists: [Vec<u32>; 6] = [vec![], vec![0], vec![u32::MAX], vec![0, u32::MAX, 1], vec![64501, 64502, 64504, 64505, 64506],
+        { let mut p: Vec<u32> = (0..15).map(|i| 65000 + 3 * i).collect(); p.insert(0, u32::MAX); p.push(0); p }];
+    for (i, c) in [0u32, 1, 64500, 64510, u32::MAX - 1, u32::MAX].into_iter().enumerate() {
+        v.push(Entry::Aspa { customer: c, providers: provider_lists[(i + 1) % 6].clone() });
+    }
+    let mut seen: BTreeSet<Entry> = BTreeSet::new();
+    v.retain(|e| seen.insert(e.clone()));
+    v
+}
+
+fn es<E: std::fmt::Display>(e: E) -> String { e.to_string() }
+
+/// The address with every host bit set (the relaxed routes must clear them).
+fn host_ones(addr: IpAddr, len: u8) -> IpAddr {
+    match addr {
+        IpAddr::V4(a) => IpAddr::V4(Ipv4Addr::from(u32::from(a) | if len >= 32 { 0 } else { u32::MAX >> len })),
+        IpAddr::V6(a) => IpAddr::V6(Ipv6Addr::from(u128::from(a) | if len >= 128 { 0 } else { u128::MAX >> len })),
+    }
+}
+
+fn hex_of(b: &[u8], upper: bool) -> String {
+    b.iter().map(|x| if upper { format!("{x:02X}") } else { format!("{x:02x}") }).collect()
+}
+
+/// The octets the `Arbitrary` routes are fed, aimed at the entry (see
+/// `Made::is_arbitrary`: aimed, not promised).
+#[cfg(feature = "with-arbitrary")]
+mod arb_octets {
+    use super::*;
+    /// `FamilyAndLen`: a bool (lowest bit; true = IPv4), then an octet taken
+    /// modulo 33 / 129 (so every multiple that fits is used in turn); `Bits`:
+    /// a little-endian u128, for IPv4 the low 32 bits (whatever stands above
+    /// them is shifted out). Host bits all set.
+    pub fn prefix(addr: IpAddr, len: u8, idx: usize) -> Vec<u8> {
+        let (v4, raw, modulus) = match host_ones(addr, len) {
+            IpAddr::V4(a) => (true, (0xDEAD_BEEF_0BAD_F00D_5EED_FACEu128 << 32) | u32::from(a) as u128, 33u16),
+            IpAddr::V6(a) => (false, u128::from(a), 129u16),
+        };
+        let wraps = (255 - len as u16) / modulus;
+        let len_octet = (len as u16 + modulus * (idx as u16 % (wraps + 1))) as u8;
+        let mut b = vec![match (v4, idx % 2) { (true, 0) => 0x01, (true, _) => 0xFF, (false, 0) => 0x00, (false, _) => 0xFE }, len_octet];
+        b.extend_from_slice(&raw.to_le_bytes());
+        b
+    }
+    /// `Option<u8>`: none where max-len = prefix length (every other time),
+    /// out-of-range values where the family maximum / the prefix length is
+    /// meant (every third time: `saturating_new` curtails them).
+    pub fn max_len(len: u8, max: u8, fmax: u8, idx: usize) -> Vec<u8> {
+        if max == len && idx % 2 == 1 { vec![0] }
+        else if max == fmax && idx % 3 == 0 { vec![1, 255] }
+        else if max == len && idx % 3 == 0 { vec![3, 0] }
+        else { vec![1, max] }
+    }
+    pub fn asn(asn: u32) -> Vec<u8> { asn.to_le_bytes().to_vec() }
+    /// A length (usize = little-endian u64, taken modulo the maximum + 1:
+    /// every other time one modulus is added) and the octets.
+    pub fn key_info(info: &[u8], idx: usize) -> Vec<u8> {
+        let modulus = rpki::rtr::pdu::RouterKey::max_key_info_size() as u64 + 1;
+        let mut b = (info.len() as u64 + if idx % 2 == 1 { modulus } else { 0 }).to_le_bytes().to_vec();
+        b.extend_from_slice(info);
+        b
+    }
+    /// A count (modulo 65535) and the AS numbers as they stand on the wire.
+    pub fn providers(p: &[u32], idx: usize) -> Vec<u8> {
+        let mut b = (p.len() as u64 + if idx % 2 == 1 { 65535 * 3 } else { 0 }).to_le_bytes().to_vec();
+        for x in p { b.extend_from_slice(&x.to_be_bytes()) }
+        b
+    }
+    /// The selector of a derived three-variant enum.
+    pub fn variant(i: u32) -> Vec<u8> { [0u32, 0x5555_5556, 0xAAAA_AAAB][i as usize].to_le_bytes().to_vec() }
+}
+
+#[cfg(feature = "with-arbitrary")]
+fn make_arbitrary(route: Made, idx: usize, e: &Entry) -> Result<Payload, String> {
+    use arbitrary::{Arbitrary, Unstructured};
+    use arb_octets as ao;
+    fn arb<'a, T: Arbitrary<'a>>(b: &'a [u8]) -> Result<T, String> { T::arbitrary(&mut Unstructured::new(b)).map_err(es) }
+    let cat = |parts: &[Vec<u8>]| parts.concat();
+    match e {
+        Entry::Origin { addr, len, max, asn } => {
+            let fmax = if addr.is_ipv4() { 32 } else { 128 };
+            let (p, m, a) = (ao::prefix(*addr, *len, idx), ao::max_len(*len, *max, fmax, idx), ao::asn(*asn));
+            match route {
+                Made::ArbParts => {
+                    let mlp = if idx % 2 == 0 { arb::<MaxLenPrefix>(&cat(&[p, m]))? }
+                        else { MaxLenPrefix::new(arb::<Prefix>(&p)?, Some(*max)).map_err(es)? };
+                    Ok(Payload::origin(mlp, arb::<Asn>(&a)?))
+                }
+                Made::ArbItem => Ok(Payload::Origin(arb::<rpki::rtr::payload::RouteOrigin>(&cat(&[p, m, a]))?)),
+                _ => arb::<Payload>(&cat(&[ao::variant(0), p, m, a])),
+            }
+        }
+        Entry::Key { ski, asn, info } => {
+            let (s, a, i) = (ski.to_vec(), ao::asn(*asn), ao::key_info(info, idx));
+            match route {
+                Made::ArbParts => Ok(Payload::router_key(arb::<rpki::crypto::KeyIdentifier>(&s)?, arb::<Asn>(&a)?, arb::<RouterKeyInfo>(&i)?)),
+                Made::ArbItem => Ok(Payload::RouterKey(arb::<rpki::rtr::payload::RouterKey>(&cat(&[s, a, i]))?)),
+                _ => arb::<Payload>(&cat(&[ao::variant(1), s, a, i])),
+            }
+        }
+        Entry::Aspa { customer, providers } => {
+            let (c, p) = (ao::asn(*customer), ao::providers(providers, idx));
+            match route {
+                Made::ArbParts => Ok(Payload::aspa(arb::<Asn>(&c)?, arb::<ProviderAsns>(&p)?)),
+                Made::ArbItem => Ok(Payload::Aspa(arb::<rpki::rtr::payload::Aspa>(&cat(&[c, p]))?)),
+                _ => arb::<Payload>(&cat(&[ao::variant(2), c, p])),
+            }
+        }
+    }
+}
+
+#[cfg(not(feature = "with-arbitrary"))]
+fn make_arbitrary(_route: Made, _idx: usize, _e: &Entry) -> Result<Payload, String> { Err("the harness is built without its feature with-arbitrary".into()) }
+
+fn slurm_doc(e: &Entry, idx: usize) -> String {
+    use base64::Engine;
+    let b64 = |b: &[u8]| base64::engine::general_purpose::URL_SAFE_NO_PAD.encode(b);
+    let (mut p, mut k, mut a) = (String::new(), String::new(), String::new());
+    match e {
+        Entry::Origin { addr, len, max, asn } => p = if max == len && idx % 2 == 1 { format!(r#"{{"asn": {asn}, "prefix": "{addr}/{len}"}}"#) }
+            else { format!(r#"{{"prefix": "{addr}/{len}", "maxPrefixLength": {max}, "asn": {asn}, "comment": "item {idx}"}}"#) },
+        Entry::Key { ski, asn, info } => k = format!(r#"{{"asn": {asn}, "SKI": "{}", "routerPublicKey": "{}"}}"#, b64(ski), b64(info)),
+        Entry::Aspa { customer, providers } => a = format!(r#"{{"customerAsn": {customer}, "providerAsns": {providers:?}}}"#),
+    }
+    format!(r#"{{"slurmVersion": 2, "validationOutputFilters": {{"prefixFilters": [], "bgpsecFilters": [], "aspaFilters": []}},
+        "locallyAddedAssertions": {{"prefixAssertions": [{p}], "bgpsecAssertions": [{k}], "aspaAssertions": [{a}]}}}}"#)
+}
+
+/// One item of the source, made by the route. `Err`: the route does not
+/// yield this item (then the source does not hold it).
+fn make_item(route: Made, idx: usize, e: &Entry) -> Result<Payload, String> {
+    use std::str::FromStr;
+    use rpki::crypto::KeyIdentifier;
+    use rpki::rtr::payload::{Aspa, RouteOrigin, RouterKey};
+    use serde_json::Value;
+    if route.is_arbitrary() { return make_arbitrary(route, idx, e) }
+    if route == Made::Ctor { return Ok(entry_payload(e.clone())) }
+    if route == Made::Relay {
+        let x = entry_payload(e.clone());
+        return rpki::rtr::pdu::Payload::new(2, Action::Announce.into_flags(), x.as_ref()).to_payload().map(|(_, p)| p).map_err(|_| "to_payload() refused the PDU".to_string());
+    }
+    if route == Made::Slurm {
+        let file = rpki::slurm::SlurmFile::from_str(&slurm_doc(e, idx)).map_err(es)?;
+        let mut items: Vec<Payload> = file.assertions.iter_payload().collect();
+        return if items.len() == 1 { Ok(items.remove(0)) } else { Err(format!("the file yields {} payload items", items.len())) };
+    }
+    let providers_of = |p: &[u32], asn: &dyn Fn(u32) -> Result<Asn, String>| -> Result<ProviderAsns, String> {
+        let v: Result<Vec<Asn>, String> = p.iter().map(|x| asn(*x)).collect();
+        ProviderAsns::try_from_iter(v?).map_err(es)
+    };
+    match e {
+        Entry::Origin { addr, len, max, asn } => {
+            let (addr, len, max, asn) = (*addr, *len, *max, *asn);
+            let fmax = if addr.is_ipv4() { 32 } else { 128 };
+            let strict_family = || match addr { IpAddr::V4(a) => Prefix::new_v4(a, len), IpAddr::V6(a) => Prefix::new_v6(a, len) }.map_err(es);
+            let some_max = |p: Prefix| MaxLenPrefix::new(p, Some(max)).map_err(es);
+            match route {
+                Made::Family => {
+                    let p = strict_family()?;
+                    let mlp = if max == len && idx % 2 == 1 { MaxLenPrefix::from(p) } else { some_max(p)? };
+                    Ok(Payload::from(RouteOrigin::new(mlp, Asn::from(asn))))
+                }
+                Made::Relaxed => {
+                    let noisy = host_ones(addr, len);
+                    let p = if idx % 2 == 0 { Prefix::new_relaxed(noisy, len) } else { match noisy {
+                        IpAddr::V4(a) => Prefix::new_v4_relaxed(a, len), IpAddr::V6(a) => Prefix::new_v6_relaxed(a, len) } }.map_err(es)?;
+                    let given = if max == fmax { 255 } else if max == len { 0 } else { max };
+                    Ok(Payload::origin(MaxLenPrefix::saturating_new(p, Some(given)), Asn::from_u32(asn)))
+                }
+                Made::Text => {
+                    let mlp = if idx % 3 == 0 { some_max(Prefix::from_str_relaxed(&format!("{}/{len}", host_ones(addr, len))).map_err(es)?)? }
+                        else if max == len && idx % 2 == 1 { MaxLenPrefix::from_str(&format!("{addr}/{len}")).map_err(es)? }
+                        else { MaxLenPrefix::from_str(&format!("{addr}/{len}-{max}")).map_err(es)? };
+                    let a = Asn::from_str(&[format!("AS{asn}"), format!("as{asn}"), format!("{asn}")][idx % 3]).map_err(es)?;
+                    Ok(Payload::origin(mlp, a))
+                }
+                Made::Serde => {
+                    let p: Prefix = serde_json::from_str(&format!("\"{addr}/{len}\"")).map_err(es)?;
+                    let a: Asn = serde_json::from_str(&format!("{asn}")).map_err(es)?;
+                    Ok(Payload::origin(some_max(p)?, a))
+                }
+                Made::SerdeValue => {
+                    let p: Prefix = serde_json::from_value(Value::String(format!("{addr}/{len}"))).map_err(es)?;
+                    let a = match idx % 3 {
+                        0 => Asn::deserialize_from_any(Value::from(asn)).map_err(es)?,
+                        1 => Asn::deserialize_from_str(Value::String(format!("AS{asn}"))).map_err(es)?,
+                        _ => serde_json::from_value::<Asn>(Value::from(asn)).map_err(es)?,
+                    };
+                    let mlp = if max == len && idx % 2 == 1 { MaxLenPrefix::new(p, None).map_err(es)? } else { some_max(p)? };
+                    Ok(Payload::origin(mlp, a))
+                }
+                _ => {
+                    let p = Prefix::new(addr, len).map_err(es)?;
+                    let prefix = if max == len && idx % 2 == 1 { MaxLenPrefix::from(p) } else { some_max(p)? };
+                    Ok(Payload::Origin(RouteOrigin { prefix, asn: asn.into() }))
+                }
+            }
+        }
+        Entry::Key { ski, asn, info } => {
+            let asn = *asn;
+            let plain_info = || RouterKeyInfo::new(info.clone().into()).map_err(es);
+            match route {
+                Made::Family => Ok(Payload::from(RouterKey::new(KeyIdentifier::try_from(&ski[..]).map_err(es)?, Asn::from(asn),
+                    RouterKeyInfo::try_from(info.clone()).map_err(es)?))),
+                Made::Text => Ok(Payload::router_key(KeyIdentifier::from_str(&hex_of(ski, idx % 2 == 1)).map_err(es)?,
+                    Asn::from_str(&[format!("AS{asn}"), format!("aS{asn}"), format!("{asn}")][idx % 3]).map_err(es)?,
+                    RouterKeyInfo::try_from(bytes::Bytes::from(info.clone())).map_err(es)?)),
+                Made::Serde => Ok(Payload::router_key(serde_json::from_str(&format!("\"{}\"", hex_of(ski, idx % 2 == 0))).map_err(es)?,
+                    serde_json::from_str(&format!("{asn}")).map_err(es)?, plain_info()?)),
+                Made::SerdeValue => Ok(Payload::router_key(serde_json::from_value(Value::String(hex_of(ski, idx % 2 == 1))).map_err(es)?,
+                    Asn::deserialize_from_any(Value::String(format!("{asn}"))).map_err(es)?, plain_info()?)),
+                Made::Literal => {
+                    // a static buffer, or a view into the middle of a larger shared one
+                    let key_info = if idx % 2 == 0 { RouterKeyInfo::new(bytes::Bytes::from_static(&INFO_PATTERN[..info.len()])) } else {
+                        let mut big = vec![0xEEu8; 5]; big.extend_from_slice(info); big.extend_from_slice(&[0xDD; 7]);
+                        RouterKeyInfo::new(bytes::Bytes::from(big).slice(5..5 + info.len()))
+                    }.map_err(es)?;
+                    Ok(Payload::RouterKey(RouterKey { key_identifier: (*ski).into(), asn: asn.into(), key_info }))
+                }
+                _ => Ok(Payload::router_key((*ski).into(), Asn::from_u32(asn), plain_info()?)),
+            }
+        }
+        Entry::Aspa { customer, providers } => {
+            let customer = *customer;
+            match route {
+                Made::Family => Ok(Payload::from(Aspa::new(Asn::from(customer), providers_of(providers, &|x| Ok(Asn::from(x)))?))),
+                Made::Relaxed => {
+                    let a = Aspa::new(Asn::from_u32(customer), providers_of(providers, &|x| Ok(Asn::from_u32(x)))?);
+                    Ok(Payload::Aspa(if providers.is_empty() { a.withdraw() } else { a }))
+                }
+                Made::Text => Ok(Payload::aspa(Asn::from_str(&format!("AS{customer}")).map_err(es)?, providers_of(providers, &|x| Asn::from_str(&format!("{x}")).map_err(es))?)),
+                Made::Serde => Ok(Payload::aspa(serde_json::from_str(&format!("{customer}")).map_err(es)?,
+                    providers_of(providers, &|x| serde_json::from_str(&format!("{x}")).map_err(es))?)),
+                Made::SerdeValue => Ok(Payload::aspa(Asn::deserialize_from_any(Value::from(customer)).map_err(es)?,
+                    providers_of(providers, &|x| Asn::deserialize_from_str(Value::String(format!("as{x}"))).map_err(es))?)),
+                _ => Ok(Payload::Aspa(Aspa { customer: customer.into(),
+                    providers: if providers.is_empty() { ProviderAsns::empty() } else { providers_of(providers, &|x| Ok(x.into()))? } })),
+            }
+        }
+    }
+}
+
+/// Runs `f`; a panic becomes `Err` (and does not count as a panic of the exchange).
+fn quiet<T>(f: impl FnOnce() -> T) -> Result<T, String> {
+    let before = PANICS.with(|p| p.borrow().len());
+    match panic::catch_unwind(AssertUnwindSafe(f)) {
+        Ok(v) => Ok(v),
+        Err(_) => Err(PANICS.with(|p| { let mut p = p.borrow_mut(); let at = before.min(p.len()); let msgs = p.split_off(at); msgs.join(" | ") })),
+    }
+}
+
+fn std_hash<T: Hash>(x: &T) -> u64 {
+    let mut h = std::collections::hash_map::DefaultHasher::new();
+    x.hash(&mut h);
+    h.finish()
+}
+
+fn entry_brief(e: &Entry) -> String {
+    match e {
+        Entry::Origin { addr, len, max, asn } => format!("{addr}/{len}-{max}=>AS{asn}"),
+        Entry::Key { ski, asn, info } => format!("key(ski {},AS{asn},{}B)", hex_of(&ski[..2], false), info.len()),
+        Entry::Aspa { customer, providers } => format!("aspa(AS{customer}:{} providers)", providers.len()),
+    }
+}
+
+/// The client's data the way a user of the crate keeps it: in collections
+/// keyed by the crate's own `==` (linear), `Hash` and `Ord`; ASPA records are
+/// keyed by customer.
+#[derive(Clone, Default)]
+struct LibData { list: Vec<Payload>, hashed: HashSet<Payload>, ordered: BTreeSet<Payload> }
+
+impl LibData {
+    fn from_items(items: &[Payload]) -> LibData {
+        let mut d = LibData::default();
+        for p in items { d.apply(Action::Announce, p) }
+        d
+    }
+    fn apply(&mut self, action: Action, p: &Payload) {
+        if let Payload::Aspa(a) = p {
+            let c = a.customer;
+            self.list.retain(|x| x.as_aspa().map(|y| y.customer) != Some(c));
+            self.hashed.retain(|x| x.as_aspa().map(|y| y.customer) != Some(c));
+            self.ordered.retain(|x| x.as_aspa().map(|y| y.customer) != Some(c));
+            if action == Action::Withdraw { return }
+        }
+        match action {
+            Action::Announce => {
+                if !self.list.iter().any(|x| x == p) { self.list.push(p.clone()) }
+                self.hashed.insert(p.clone());
+                self.ordered.insert(p.clone());
+            }
+            Action::Withdraw => {
+                self.list.retain(|x| x != p);
+                self.hashed.remove(p);
+                self.ordered.remove(p);
+            }
+        }
+    }
+    /// `self` (what the client holds) against `want` (what the source
+    /// reported): the first difference, named by the comparison that shows it.
+    fn differs_from(&self, want: &[Payload]) -> Option<String> {
+        use std::cmp::Ordering as O;
+        let src = LibData::from_items(want);
+        let show = |p: &Payload| entry_brief(&payload_entry(p));
+        let pair = |what: String, x: &Payload, y: &Payload| Some(format!("{what}: the source's {} and the client's {}, which read the same [source: {x:?}; client: {y:?}]", show(x), show(y)));
+        for x in want {
+            // the client's item that reads the same: the comparisons are about that pair
+            let Some(y) = self.list.iter().find(|y| payload_entry(y) == payload_entry(x)) else {
+                return Some(format!("among the {} items the client keeps apart by == none reads as the source's {} [{x:?}]", self.list.len(), show(x)));
+            };
+            if !(x == y) || !(y == x) || x != y { return pair(format!("== says {} / {} (!= {})", x == y, y == x, x != y), x, y) }
+            if std_hash(x) != std_hash(y) { return pair("== but Hash differs".into(), x, y) }
+            if x.cmp(y) != O::Equal || y.cmp(x) != O::Equal || x.partial_cmp(y) != Some(O::Equal) { return pair(format!("== but cmp says {:?} / {:?}", x.cmp(y), y.cmp(x)), x, y) }
+            if x.as_ref() != y.as_ref() || std_hash(&x.as_ref()) != std_hash(&y.as_ref()) || x.as_ref().cmp(&y.as_ref()) != O::Equal {
+                return pair("equal as Payload but not as PayloadRef (== / Hash / cmp)".into(), x, y);
+            }
+            if !self.hashed.contains(x) { return pair("== with equal Hash, yet the source's value is not found in the client's HashSet<Payload>".into(), x, y) }
+            if !self.ordered.contains(x) { return pair("== and cmp Equal, yet the source's value is not found in the client's BTreeSet<Payload>".into(), x, y) }
+        }
+        for y in &self.list {
+            if !src.list.iter().any(|x| x == y) { return Some(format!("the client holds {}, which is == to nothing the source reported [{y:?}]", show(y))) }
+            if !src.hashed.contains(y) { return Some(format!("the client holds {}: not found in a HashSet<Payload> of what the source reported [{y:?}]", show(y))) }
+            if !src.ordered.contains(y) { return Some(format!("the client holds {}: not found in a BTreeSet<Payload> of what the source reported [{y:?}]", show(y))) }
+        }
+        let n = src.list.len();
+        if self.list.len() != n || self.hashed.len() != n || self.ordered.len() != n || src.hashed.len() != n || src.ordered.len() != n {
+            return Some(format!("the source reported {n} items distinct by == (HashSet {}, BTreeSet {}); the client holds {} by ==, {} in its HashSet, {} in its BTreeSet",
+                src.hashed.len(), src.ordered.len(), self.list.len(), self.hashed.len(), self.ordered.len()));
+        }
+        None
+    }
+}
+
+#[derive(Default)]
+struct RtTarget { lib: LibData, model: Data, timing: Option<(u32, u32, u32)> }
+struct RtUpdate { reset: bool, ops: Vec<(Action, Payload)> }
+impl PayloadUpdate for RtUpdate {
+    fn push_update(&mut self, action: Action, payload: Payload) -> Result<(), PayloadError> { self.ops.push((action, payload)); Ok(()) }
+}
+impl PayloadTarget for RtTarget {
+    type Update = RtUpdate;
+    fn start(&mut self, reset: bool) -> RtUpdate { RtUpdate { reset, ops: Vec::new() } }
+    fn apply(&mut self, update: RtUpdate, timing: Timing) -> Result<(), PayloadError> {
+        if update.reset { self.lib = LibData::default(); self.model = Data::default() }
+        for (action, p) in &update.ops {
+            self.lib.apply(*action, p);
+            let e = payload_entry(p);
+            match action { Action::Announce => { self.model.announce(e); } Action::Withdraw => { self.model.withdraw(&e); } }
+        }
+        self.timing = Some((timing.refresh, timing.retry, timing.expire));
+        Ok(())
+    }
+}
+
+const RT_SESSION: u16 = 0x0C06;
+const RT_SERIAL: u32 = 7;     // state 0; state 1 is serial 8
+const RT_TIMING: (u32, u32, u32) = (41, 13, 101);
+
+struct RtInner { sets: [Vec<Payload>; 2], diff: Vec<(Payload, Action)>, cur: Mutex<usize> }
+#[derive(Clone)]
+struct RtSource(Arc<RtInner>);
+struct RtSet { src: Arc<RtInner>, which: usize, pos: usize }
+struct RtDiff { src: Arc<RtInner>, pos: usize, len: usize }
+
+/// The ways a `PayloadRef` comes into being are routes too: `as_ref()` and
+/// the `From` impls take turns.
+fn payload_ref(p: &Payload, pos: usize) -> PayloadRef<'_> {
+    if pos % 2 == 0 { return p.as_ref() }
+    match p {
+        Payload::Origin(o) => if pos % 4 == 1 { PayloadRef::from(*o) } else { PayloadRef::from(o) },
+        Payload::RouterKey(k) => PayloadRef::from(k),
+        Payload::Aspa(a) => PayloadRef::from(a),
+    }
+}
+
+impl PayloadSet for RtSet {
+    fn next(&mut self) -> Option<PayloadRef<'_>> { let p = self.src.sets[self.which].get(self.pos)?; self.pos += 1; Some(payload_ref(p, self.pos)) }
+}
+impl PayloadDiff for RtDiff {
+    fn next(&mut self) -> Option<(PayloadRef<'_>, Action)> {
+        if self.pos >= self.len { return None }
+        let p = self.src.diff.get(self.pos)?; self.pos += 1; Some((payload_ref(&p.0, self.pos), p.1))
+    }
+}
+impl RtSource {
+    fn state_of(which: usize) -> State { State::from_parts(RT_SESSION, Serial(RT_SERIAL.wrapping_add(which as u32))) }
+    fn cur(&self) -> usize { *self.0.cur.lock().unwrap() }
+}
+impl PayloadSource for RtSource {
+    type Set = RtSet;
+    type Diff = RtDiff;
+    fn ready(&self) -> bool { true }
+    fn notify(&self) -> State { Self::state_of(self.cur()) }
+    fn full(&self) -> (State, RtSet) { let c = self.cur(); (Self::state_of(c), RtSet { src: self.0.clone(), which: c, pos: 0 }) }
+    fn diff(&self, state: State) -> Option<(State, RtDiff)> {
+        let c = self.cur();
+        if state.session() != RT_SESSION { return None }
+        if state.serial() == Self::state_of(c).serial() { return Some((Self::state_of(c), RtDiff { src: self.0.clone(), pos: 0, len: 0 })) }
+        if c == 1 && state.serial() == Self::state_of(0).serial() { return Some((Self::state_of(1), RtDiff { src: self.0.clone(), pos: 0, len: self.0.diff.len() })) }
+        None
+    }
+    fn timing(&self) -> Timing { Timing { refresh: RT_TIMING.0, retry: RT_TIMING.1, expire: RT_TIMING.2 } }
+}
+
+/// One scenario of the space.
+#[derive(Clone, Copy, Debug, PartialEq, Eq)]
+struct RtCase { route: Made, version: u8,
+    /// the client starts in the source's first state, its target filled with the source's OWN values
+    /// (a client whose earlier data came out of the same process: a snapshot, a shared store), and takes
+    /// the diff; else it starts empty: reset query, then the diff
+    preloaded: bool,
+    link: Transport,
+    /// the source yields its items in reverse
+    rev: bool }
+
+impl RtCase {
+    fn render(&self) -> String {
+        format!("routes route={} v={} client={} link={} rev={}", self.route.name(), self.version, if self.preloaded { "preloaded" } else { "empty" }, self.link.name(), self.rev as u8)
+    }
+    fn parse(s: &str) -> Option<RtCase> {
+        let mut c = RtCase { route: Made::Ctor, version: 2, preloaded: false, link: Transport::Roomy, rev: false };
+        for tok in s.split_whitespace().skip(1) {
+            let (k, v) = tok.split_once('=')?;
+            match k {
+                "route" => c.route = MADE.iter().copied().find(|m| m.name() == v)?,
+                "v" => c.version = v.parse().ok().filter(|v| *v <= 2)?,
+                "client" => c.preloaded = match v { "preloaded" => true, "empty" => false, _ => return None },
+                "link" => c.link = TRANSPORTS.iter().copied().find(|t| t.name() == v)?,
+                "rev" => c.rev = v == "1",
+                "step" => {}
+                _ => return None,
+            }
+        }
+        Some(c)
+    }
+}
+
+#[derive(Default)]
+struct RtOut {
+    /// (step number, outcome class)
+    steps: Vec<(usize, String)>,
+    /// (oracle, step number, detail)
+    verdicts: Vec<(&'static str, usize, String)>,
+    /// items by what the route made of them
+    aimed: u64, other: u64, unavailable: u64,
+    /// finished steps and payload items they handed over, items with a boundary component among them
+    finished: u64, handed: u64, boundary: u64,
+    first_unavailable: Option<String>,
+}
+
+fn is_boundary(e: &Entry) -> bool {
+    match e {
+        Entry::Origin { addr, len, max, asn } => { let f = if addr.is_ipv4() { 32 } else { 128 }; *len == 0 || *len == f || *max == f || *asn == 0 || *asn == u32::MAX }
+        Entry::Key { ski, asn, info } => *asn == 0 || *asn == u32::MAX || info.is_empty() || ski.iter().all(|b| *b == ski[0]),
+        Entry::Aspa { customer, providers } => *customer == 0 || *customer == u32::MAX || providers.is_empty() || providers.contains(&0) || providers.contains(&u32::MAX),
+    }
+}
+
+async fn routes_async(case: RtCase) -> RtOut {
+    let mut out = RtOut::default();
+    let universe = route_universe();
+    // the source's items: universe index -> the value the route made
+    let mut made: Vec<(usize, Payload)> = Vec::new();
+    for (idx, e) in universe.iter().enumerate() {
+        match quiet(|| make_item(case.route, idx, e)) {
+            Ok(Ok(p)) => {
+                let reads = payload_entry(&p);
+                if reads == *e { out.aimed += 1 }
+                else if case.route.is_arbitrary() { out.other += 1 }
+                else {
+                    out.aimed += 1;
+                    out.verdicts.push(("C06.api.construction_routes", 0, format!("item #{idx}: the route was given {} and returned a value that reads {} [{p:?}]", entry_brief(e), entry_brief(&reads))));
+                }
+                // `Arbitrary` may return one value for two inputs; a source holds an item once
+                if !made.iter().any(|(_, q)| payload_entry(q) == reads) { made.push((idx, p)) }
+            }
+            Ok(Err(why)) => {
+                out.unavailable += 1;
+                out.first_unavailable.get_or_insert_with(|| format!("item #{idx} {}: {why}", entry_brief(e)));
+                // (an `Arbitrary` impl may find the octets wanting; every other route was given components its documentation admits)
+                if !case.route.is_arbitrary() {
+                    out.verdicts.push(("C06.api.construction_routes", 0, format!("item #{idx}: the route was given {} and refused: {why}", entry_brief(e))));
+                }
+            }
+            Err(panic) => out.verdicts.push(("C06.api.construction_routes", 0, format!("item #{idx}: given {} the route panicked: {panic}", entry_brief(e)))),
+        }
+    }
+    if case.rev { made.reverse() }
+    // ASPA customers and (by construction) all other items are pairwise different, so the two states are plain subsets
+    let in_state = |which: usize, idx: usize| if which == 0 { idx % 4 != 3 } else { idx % 4 != 0 };
+    let set = |which: usize| -> Vec<Payload> { made.iter().filter(|(i, _)| in_state(which, *i)).map(|(_, p)| p.clone()).collect() };
+    let mut diff: Vec<(Payload, Action)> = Vec::new();
+    for (i, p) in &made {
+        if in_state(0, *i) && !in_state(1, *i) { diff.push((p.clone(), Action::Withdraw)) }
+        if !in_state(0, *i) && in_state(1, *i) { diff.push((p.clone(), Action::Announce)) }
+    }
+    let carried = |p: &Payload| entry_min_version(&payload_entry(p)) <= case.version;
+    let src = RtSource(Arc::new(RtInner { sets: [set(0), set(1)], diff, cur: Mutex::new(0) }));
+    let obs = Arc::new(Mutex::new(Obs::default()));
+    let (c2s, s2c) = case.link.caps();
+    let (c_end, s_end) = link(c2s, s2c);
+    let listener = futures_util::stream::iter(vec![Ok::<Sock, std::io::Error>(Sock { io: s_end, obs })]);
+    tokio::spawn(Server::new(listener, NotifySender::new(), src.clone()).run());
+    let sock = CSock { io: c_end, consumed: Arc::new(AtomicU64::new(0)), sent: Arc::new(AtomicU64::new(0)) };
+    let (target, state) = if case.preloaded {
+        let own: Vec<Payload> = src.0.sets[0].iter().filter(|p| carried(p)).cloned().collect();
+        let mut model = Data::default();
+        for p in &own { model.announce(payload_entry(p)); }
+        (RtTarget { lib: LibData::from_items(&own), model, timing: None }, Some(RtSource::state_of(0)))
+    } else { (RtTarget::default(), None) };
+    let mut client = Client::with_initial_version(case.version, sock, target, state);
+    settle().await;
+    let first_step = if case.preloaded { 2 } else { 1 };
+    for step in first_step..=2usize {
+        if step == 2 { *src.0.cur.lock().unwrap() = 1 }
+        let which = step - 1;
+        let res = tokio::time::timeout(HORIZON, client.step()).await;
+        settle().await;
+        let kind = if step == 1 { "reset-query" } else if case.preloaded { "serial-query:diff-onto-the-source's-own-values" } else { "serial-query:diff" };
+        match res {
+            Ok(Ok(())) => {
+                out.finished += 1;
+                out.steps.push((step, format!("step:ok:{kind}")));
+                let want: Vec<Payload> = src.0.sets[which].iter().filter(|p| carried(p)).cloned().collect();
+                out.handed += want.len() as u64;
+                out.boundary += want.iter().filter(|p| is_boundary(&payload_entry(p))).count() as u64;
+                let st = client.state().map(|s| (s.session(), s.serial().0));
+                let named = RtSource::state_of(which);
+                if st != Some((named.session(), named.serial().0)) {
+                    out.verdicts.push(("C06.state.eod", step, format!("client.state() = {st:?}, the source's End of Data named {:?}", (named.session(), named.serial().0))));
+                }
+                let mut want_model = Data::default();
+                for p in &want { want_model.announce(payload_entry(p)); }
+                let t = client.target();
+                if t.model != want_model {
+                    let missing: Vec<String> = want_model.plain.iter().filter(|e| !t.model.plain.contains(*e)).take(3).map(entry_brief).collect();
+                    let extra: Vec<String> = t.model.plain.iter().filter(|e| !want_model.plain.contains(*e)).take(3).map(entry_brief).collect();
+                    out.verdicts.push(("C06.data.equals_source", step, format!(
+                        "as read through the accessors the target holds {} items, the source reported {}; first missing {missing:?}, first extra {extra:?}, ASPA customers {:?} vs {:?}",
+                        t.model.plain.len() + t.model.aspa.len(), want_model.plain.len() + want_model.aspa.len(),
+                        t.model.aspa.keys().collect::<Vec<_>>(), want_model.aspa.keys().collect::<Vec<_>>())));
+                } else if let Some(d) = t.lib.differs_from(&want) {
+                    out.verdicts.push(("C06.data.equals_source", step, format!("source values made by route {}: {d}", case.route.name())));
+                }
+                if case.version >= 1 && t.timing != Some(RT_TIMING) {
+                    out.verdicts.push(("C06.timing.equals_source", step, format!("client reports timing {:?}, source's is {RT_TIMING:?}", t.timing)));
+                }
+            }
+            Ok(Err(e)) => { out.steps.push((step, format!("step:err:{kind}:{}", rpki_verif::trunc(&format!("{:?}: {e}", e.kind()), 50)))); break }
+            Err(_) => { out.steps.push((step, format!("step:hang:{kind}"))); break }
+        }
+    }
+    out
+}
+
+fn routes_exec(case: RtCase) -> Result<RtOut, Vec<String>> {
+    PANICS.with(|p| p.borrow_mut().clear());
+    let r = panic::catch_unwind(AssertUnwindSafe(move || {
+        let rt = tokio::runtime::Builder::new_current_thread().enable_time().start_paused(true).build().unwrap();
+        rt.block_on(routes_async(case))
+    }));
+    let panics = PANICS.with(|p| std::mem::take(&mut *p.borrow_mut()));
+    match r { Ok(o) if panics.is_empty() => Ok(o), Ok(_) => Err(panics), Err(_) => Err(if panics.is_empty() { vec!["panic".into()] } else { panics }) }
+}
+
+/// The scenarios (deterministic; the space is small enough for both tiers to
+/// take the full product, the thorough tier adds two more transports).
+fn routes_cases(thorough: bool) -> Vec<RtCase> {
+    let links: &[Transport] = if thorough { &[Transport::Roomy, Transport::S16, Transport::S12, Transport::S7, Transport::C7] }
+        else { &[Transport::Roomy, Transport::S16, Transport::S7] };
+    let mut v = Vec::new();
+    for route in MADE { for version in 0..=2u8 { for preloaded in [false, true] { for &link in links { for rev in [false, true] {
+        v.push(RtCase { route, version, preloaded, link, rev });
+    }}}}}
+    v
+}
+
+/// `rtr.construction_routes`.
+fn routes_space(ctx: &Ctx, thorough: bool) {
+    let sp = ctx.space("rtr.construction_routes",
+        "the route by which the SOURCE's values came into being, crossed with the crate's own equality: a universe of payload items (origins with EVERY prefix length of both families, 0..=32 and 0..=128, address bits all ones down to the prefix length and a second pattern at lengths 0, 1, maximum-1, maximum, max-len = prefix length / half-way / family maximum, AS 0 / 2^32-1 / ordinary rotating over them; router keys with SKI all zero / all ones / mixed, AS 0 / 2^32-1, key info of 0, 1, 91, 300 octets; ASPA for customers 0, 1, 2^32-2, 2^32-1 and two ordinary ones with 0, 1, 3, 5, 17 providers incl. AS 0 and 2^32-1) is made item by item by each of 12 public routes {ordinary constructors (control); family constructors + From impls + no max-len where it equals the prefix length; relaxed constructors given an address with all host bits set + saturating_new given 255 / 0 + Aspa::withdraw(); FromStr forms (a/l-m, a/l, from_str_relaxed, AS1 / as1 / 1, upper / lower case hex); Deserialize from JSON text; Deserialize from serde_json::Value incl. Asn::deserialize_from_any / _from_str; struct literals from the public fields with static / sliced Bytes and ProviderAsns::empty(); a SLURM file through SlurmFile::from_str + iter_payload(); pdu::Payload::new(..).to_payload() (a relaying cache); the Arbitrary impls of the components, of RouteOrigin / RouterKey / Aspa, and of Payload, fed octets aimed at the item: both bool octets, every multiple of the length modulus that fits, host bits set, junk above an IPv4 address, max-len absent / out of range, lengths and counts plus a modulus}; the source serves state 1 (three quarters of the items) and, after a move, state 2 (another three quarters) through the real Server, its PayloadRefs made by as_ref() and the From impls in turn; a real Client at version 0, 1, 2, over roomy pipes and server->client pipes of 16 and 7 octets [thorough: + 12 octets, + a 7-octet client->server pipe], the source iterating forwards and backwards, either starts empty (reset query, then the serial diff) or starts in state 1 with its target filled with the source's OWN values (serial diff onto them: the client's withdrawals must find them); the target keeps what it is handed the way a user of the crate does - a Vec under ==, a HashSet<Payload>, a BTreeSet<Payload>, ASPA keyed by customer - besides the model rendering of the other spaces; after every finished step C06.data.equals_source demands: read through the accessors the client's data is the source's set for the state End of Data named (restricted to the version), and every source value has a client value that is == to it both ways, as Payload and as PayloadRef, with equal Hash and cmp Equal, is found in the client's HashSet and BTreeSet, and every client value is found among the source's in all three ways, counts equal; state and timing as everywhere. What a route makes of an item is read back through the accessors: for the Arbitrary routes whatever comes out IS the source's item (Arbitrary promises no mapping; classes aimed-for / other value), for all other routes a refusal, a panic or a value that does not read back the components it was given is reported as C06.api.construction_routes. Non-trivial = finished steps of a route other than the control that handed over at least one item with a boundary component (prefix length 0 or maximum, max-len at the family maximum, AS 0 or 2^32-1, empty key info / provider set)");
+    #[cfg(not(feature = "with-arbitrary"))]
+    ctx.assume("rtr.construction_routes: the three Arbitrary routes are NOT covered: the harness is built without its feature `with-arbitrary`");
+    let cases = routes_cases(thorough);
+    let results: Vec<Result<RtOut, Vec<String>>> = cases.par_iter().map(|c| routes_exec(*c)).collect();
+    let (mut finished, mut handed, mut boundary, mut items) = (0u64, 0u64, 0u64, 0u64);
+    let mut by_route: BTreeMap<&'static str, (u64, u64, u64, u64)> = BTreeMap::new();
+    let mut unavailable_sample: Option<String> = None;
+    let mut route_faults: BTreeSet<(Made, String)> = BTreeSet::new();
+    for (case, r) in cases.iter().zip(results) {
+        match r {
+            Err(p) => { sp.eval(); sp.outcome("step:panic"); ctx.fail("C06.step.no_panic", case.render(), p.join(" | ")) }
+            Ok(out) => {
+                sp.evals(out.steps.len() as u64);   // client steps executed
+                for (_, class) in &out.steps { sp.outcome(class) }
+                sp.outcomes_n("item:reads-as-aimed-for", out.aimed);
+                if out.other > 0 { sp.outcomes_n("item:arbitrary-made-another-value(served-as-it-is)", out.other) }
+                if out.unavailable > 0 { sp.outcomes_n("item:route-does-not-yield-it", out.unavailable) }
+                if unavailable_sample.is_none() { unavailable_sample = out.first_unavailable.clone().map(|s| format!("{}: {s}", case.render())) }
+                finished += out.finished; handed += out.handed; boundary += out.boundary; items += out.aimed + out.other;
+                let e = by_route.entry(case.route.name()).or_insert((0, 0, 0, 0));
+                e.0 += out.finished; e.1 += out.handed; e.2 += out.other; e.3 += out.unavailable;
+                if case.route != Made::Ctor && out.boundary > 0 { sp.nontrivial(out.finished) }
+                for (o, step, d) in out.verdicts {
+                    // what a route makes of an item does not depend on the scenario: reported once per route
+                    if step == 0 && !route_faults.insert((case.route, d.clone())) { continue }
+                    ctx.fail(o, if step == 0 { case.render() } else { format!("{} step={step}", case.render()) }, d)
+                }
+            }
+        }
+    }
+    if finished == 0 { ctx.machinery_error("vacuous: no client step finished in rtr.construction_routes") }
+    sp.sample_str(|| format!("{} => universe of {} items, e.g. {}", cases[0].render(), route_universe().len(),
+        route_universe().iter().filter(|e| is_boundary(e)).step_by(97).take(5).map(entry_brief).collect::<Vec<_>>().join(", ")));
+    sp.set("routes", json!(MADE.iter().map(|m| m.name()).collect::<Vec<_>>()));
+    sp.set("universe_items", json!(route_universe().len()));
+    sp.set("items_made", json!(items));
+    sp.set("finished_steps", json!(finished));
+    sp.set("payload_items_compared(source vs client, ==/Hash/Ord/membership)", json!(handed));
+    sp.set("of_which_with_a_boundary_component", json!(boundary));
+    sp.set("by_route(finished steps, items compared, arbitrary made another value, route does not yield)", json!(by_route.iter().map(|(k, v)| format!("{k}: {v:?}")).collect::<Vec<_>>()));
+    if let Some(s) = unavailable_sample { sp.set("route_does_not_yield(first)", json!(s)) }
+    sp.set("scenarios", json!(cases.len()));
+    sp.done(true, &format!("{} scenarios (12 routes x versions 0..2 x client empty / preloaded x transports x iteration order), every client step of each, every item of the universe by every route", cases.len()));
+}
+
+// ======================================================================
 // The explorer
 // ======================================================================
 
@@ -2999,6 +3752,19 @@ fn main() {
             }
             ctx.finish();
         }
+        if wit.starts_with("routes ") {
+            match RtCase::parse(&wit) {
+                None => ctx.machinery_error(format!("cannot parse replay witness {wit}")),
+                Some(case) => match routes_exec(case) {
+                    Err(p) => ctx.fail("C06.step.no_panic", case.render(), p.join(" | ")),
+                    Ok(out) => {
+                        println!("replay: {} -> {:?}; items: {} as aimed for, {} other, {} not yielded", case.render(), out.steps, out.aimed, out.other, out.unavailable);
+                        for (o, step, d) in out.verdicts { ctx.fail(o, if step == 0 { case.render() } else { format!("{} step={step}", case.render()) }, d) }
+                    }
+                },
+            }
+            ctx.finish();
+        }
         if wit.starts_with("seq ") {
             match Scn::parse(&wit) {
                 None => ctx.machinery_error(format!("cannot parse replay witness {wit}")),
@@ -3050,6 +3816,11 @@ fn main() {
         let t = WallInstant::now();
         f(&ctx, thorough);
         println!("C06: sequence space {name} wall={:.1}s", t.elapsed().as_secs_f64());
+    }
+    if only.as_deref().is_none_or(|o| o == "routes") {
+        let t = WallInstant::now();
+        routes_space(&ctx, thorough);
+        println!("C06: construction-route space wall={:.1}s", t.elapsed().as_secs_f64());
     }
     if only.is_some() { ctx.finish() }
 
